@@ -9,7 +9,7 @@ from props.common import sub_rng, diff_runs, replay_generic, corpus_cases
 replay = replay_generic
 POOL = ['1+2;', '"s";', 'nil;', '[1,"a"];', '%s 7;' % PRINT, '%s x = 5;' % VAR, 'x;', '1/0;', '%s(-3);' % ABS, '@;', '"open', '%s 1' % PRINT, '}', '{ 1; 2; }', '',
         '%s (i = 0; i < 2; i = i + 1) { i; }' % FOR, '%s f() { 5; %s 6; } f();' % (FUN, RETURN), '%s 1;' % RETURN, '{a: 1};', '1 2', '%s;' % LEN, '1.5;', '%s;' % BREAK,
-        '"অা";', '%s = 5;' % LEN, '%s([1, 2, 3]);' % LEN, '%s = 5; x;' % LEN, '%s = nil; 1/0;' % ABS, '%s(-2);' % ABS]
+        '"অা";', '%s = 5;' % LEN, '%s([1, 2, 3]);' % LEN, '%s = 5; x;' % LEN, '%s (;;) { 1/0; }' % FOR, '%s (;%s;) { nope; }' % (FOR, TRUE), '%s (%s) { %s; }' % (WHILE, TRUE, BREAK), '%s = nil; 1/0;' % ABS, '%s(-2);' % ABS]
 
 
 def split_responses(out):
@@ -28,6 +28,11 @@ def run(env, tier, seed, broken=None):
             sessions.append(list(t))
     for _ in range(1500 if tier == 'quick' else 30000):
         sessions.append([rng.choice(POOL) for _ in range(rng.randint(3, 40 if rng.random() < 0.1 else 8))])
+    long1 = 'x;' + ' ' * 4094 + '%s "leaked";' % PRINT
+    long2 = ' + '.join(['১'] * 2000) + ';'
+    long3 = '"' + 'ক' * 3000 + '";'
+    for extra_lines in ([long1, '1 + 1;'], ['1;', long2, '2;'], [long3, long1, long2], [long2]):
+        sessions.append(extra_lines)
     for s in sessions:
         cases.append({'id': 'r%d' % n, 'mode': 'repl', 'src': '\n'.join(s) + rng.choice(['\n', '\n', '', '\r\n']), 'lines': s}); n += 1
     mism, ri, rm = diff_runs(env, cases, need_oracle=False)
